@@ -166,7 +166,7 @@ pub fn c03_scenario(seed: u64, idx: u64) -> Scenario {
             files.push(("/ln.bin".into(), l));
         }
     }
-    sc.tree = TreeSpec { root: "root".into(), entries };
+    sc.tree = TreeSpec { root: "root".into(), entries, mtime_mode: 0 };
     let n = rng.range(1, 6);
     let overlapped = rng.chance(1, 2);
     for i in 0..n {
